@@ -19,7 +19,8 @@ func init() {
 			"R14.2 per-sample labels: the label slice given to relabel.Process is rebuilt for every row (not carried across rows) from the row's own metric name and tags, and the relabel rules are the caller's; " +
 			"R14.3 every write to the result happens under the result's mutex (the parser calls back concurrently); " +
 			"R14.4 window: the history is bounded by 3; below the bound the new kept count is appended, at the bound exactly the oldest element is dropped; the series value is the mean over the window, total-series is the last scrape's total; the proxy updates the estimate only after both scraper calls succeeded; " +
-			"R14.5 runtime info: sums are taken per dimension over the status map and the reported head series is bounded below by both the sum and Prometheus' own value (plus the units inference of C04 over pkg/sidecar, pkg/target, pkg/scrape, pkg/explore).",
+			"R14.5 runtime info: sums are taken per dimension over the status map and the reported head series is bounded below by both the sum and Prometheus' own value (plus the units inference of C04 over pkg/sidecar, pkg/target, pkg/scrape, pkg/explore); " +
+			"R14.6 who may write ScrapeStatus.Series/TotalSeries: only the constructor and the scrape-result update (a failed scrape leaves the last total); R14.7 the scrape manager installs a fresh job table on every reload, no entry carried over from the previous one (a job reads its metric relabel rules from its own copy of the configuration).",
 		Assumptions: []string{"go/types and go/ssa are correct", "relabel.Process is pure (reviewed in the pinned prometheus module)"}})
 }
 
@@ -60,6 +61,10 @@ func runC14(p *engine.Prog, r *engine.Report) {
 	r.Min("R14.3-result-lock", 4)
 	r.Min("R14.4-window", 2)
 	r.Min("R14.5-runtime-info", 2)
+	r.Min("R14.6-statistics-writers", 1)
+	r.Min("R14.7-jobs-rebuilt", 1)
+	checkStatisticsWriters(p, r, "R14.6-statistics-writers")
+	checkJobsRebuilt(p, r)
 	fi := p.Info(fnStat)
 	resT := fi.T(fnStat.Params[len(fnStat.Params)-1]).S
 
@@ -518,4 +523,80 @@ func uniqStrings(in []string) []string {
 		}
 	}
 	return out
+}
+
+// checkJobsRebuilt is R14.7: the scrape manager's job table is rebuilt from the configuration on every reload. The
+// rules a sample is counted by (metric relabeling) are read from the job's own copy of its configuration, so a job
+// carried over from the previous table would go on counting with the previous rules.
+func checkJobsRebuilt(p *engine.Prog, r *engine.Report) {
+	fJobs := p.Field(pkgScrape, "Manager", "jobs")
+	if fJobs == nil {
+		return
+	}
+	n := 0
+	for _, fn := range p.Funcs {
+		if !engine.InPkg(fn, pkgScrape) || fn.Signature.Recv() == nil {
+			continue
+		}
+		fi := p.Info(fn)
+		for _, in := range allInstrs(fn) {
+			st, ok := in.(*ssa.Store)
+			if !ok {
+				continue
+			}
+			fa, ok := st.Addr.(*ssa.FieldAddr)
+			if !ok || engine.FieldOf(fa) != fJobs {
+				continue
+			}
+			n++
+			var probs []string
+			mm, ok := st.Val.(*ssa.MakeMap)
+			if !ok {
+				probs = append(probs, "the table installed is "+short(fi.T(st.Val).S)+", not a map made in this reload")
+			} else {
+				for _, rr := range *mm.Referrers() {
+					mu, ok := rr.(*ssa.MapUpdate)
+					if !ok || mu.Map != ssa.Value(mm) {
+						continue
+					}
+					if src := comesFromField(mu.Value, fJobs, map[ssa.Value]bool{}); src != nil {
+						probs = append(probs, "an entry of the previous table is carried over at "+p.Rel(mu.Pos())+": it keeps the configuration (metric relabel rules) it was created with")
+					}
+				}
+			}
+			r.Check(len(probs) == 0, "R14.7-jobs-rebuilt", "job table installed in "+engine.FuncName(fn), "store at "+p.Rel(st.Pos()), "a fresh table whose every entry is created from the configuration being applied", strings.Join(probs, "; "))
+		}
+	}
+	if n == 0 {
+		r.Add("R14.7-jobs-rebuilt", "job table", pkgScrape, "a method installing Manager.jobs", "none found", engine.Undecided)
+	}
+}
+
+// comesFromField: v is (through phis and comma-ok extracts) read out of the map held in field f.
+func comesFromField(v ssa.Value, f *types.Var, seen map[ssa.Value]bool) ssa.Value {
+	if seen[v] {
+		return nil
+	}
+	seen[v] = true
+	switch x := v.(type) {
+	case *ssa.Phi:
+		for _, e := range x.Edges {
+			if r := comesFromField(e, f, seen); r != nil {
+				return r
+			}
+		}
+	case *ssa.Extract:
+		return comesFromField(x.Tuple, f, seen)
+	case *ssa.Lookup:
+		if _, ok := loadOfField(x.X, f); ok {
+			return x
+		}
+	case *ssa.Next:
+		if rg, ok := x.Iter.(*ssa.Range); ok {
+			if _, ok := loadOfField(rg.X, f); ok {
+				return x
+			}
+		}
+	}
+	return nil
 }
